@@ -306,6 +306,12 @@ inductive Op
                                        -- `H.update(G)` for a model `G` of class `κg` with terms `q` (dict order),
                                        -- recorded constraints `cs` and ancilla counter `a`
   | remap                              -- `H.set_mapping(σ ∘ H.mapping)`, σ the reversal of `0..n-1`
+  -- self-aliased operands: the other operand is the live object itself
+  | iaddSelf                           -- `H += H`
+  | isubSelf                           -- `H -= H`
+  | imulSelf                           -- `H *= H`
+  | updateSelf                         -- `H.update(H)`
+  | isubCopy                           -- `H -= H.copy()` (the un-aliased control)
   deriving Repr, Inhabited
 
 def ofExcept (s : State) : Except Err State → State × Option Err
@@ -418,6 +424,21 @@ def step (fx : Fix) (s : State) : Op → State × Option Err
     | r => r
   | .updateM κg q cs a => updateM fx s κg q cs a
   | .remap => if hasBO s.kind then (remap s, none) else (s, some .attr)
+  -- `for k, v in other.items(): self[k] += v` with `other is self`: every value is read when its key is visited
+  -- and replaced by its double (never zero), so the live iteration visits the items of the snapshot
+  | .iaddSelf => iaddLoop fx s s.terms
+  -- `for k, v in tuple(other.items()): self[k] -= v` (1dd08ee): every entry cancels and is popped; no `clear()`:
+  -- the caches stay as upper bounds, the constraints and the ancilla counter stay
+  | .isubSelf => isubLoop fx s s.terms
+  -- `items, oitems = tuple(self.items()), tuple(other.items())` are taken before `self.clear()`
+  | .imulSelf => imulD fx s s.terms
+  -- `self[k] = v` with the own items (no change of the dict), then `PCBO.update` finds an argument of its own class:
+  -- `self._constraints[k].extend(self._constraints[k])` doubles the recorded lists, `max(a, a)` keeps the counter
+  | .updateSelf => updateM fx s s.kind s.terms s.constraints s.ancilla
+  | .isubCopy =>
+    match copy fx s with
+    | (c, none) => isubLoop fx s c.terms
+    | (_, some e) => (s, some e)
 
 /-- a whole history on a fresh model; exceptions are caught by the caller and the history goes on -/
 def run (fx : Fix) (κ : Kind) (ops : List Op) : State :=
